@@ -14,7 +14,10 @@ class C06(ProgCheck):
     rule = ("(a) for-headers: every (first, limit, step, direction) over a boundary lattice incl. INT64_MIN/MAX, null and "
             "invalid steps, body prints the iterator; also bodies that modify the control variable; (b) bounded-exhaustive "
             "nestings of for/while/if/begin with break/continue/return/raise at each position; (c) seeded random "
-            "structured programs with loop emphasis. Observed: printed iterator sequence, returned value, every variable "
+            "structured programs with loop emphasis (half of them with table variables, forall, writes through the iterator and "
+            "container methods); (d) forall: table sizes 0..4 and null x direction x variable/temporary source x read / write "
+            "through the iterator / break / continue / raise / return at each index, nested forall on one and on two tables, "
+            "then the table is changed and the iterator retyped (constraints released). Observed: printed iterator sequence, returned value, every variable "
             "after the run, control/exec depth and constraint flags (BLOC_VERIF accessors). distinct = program text.")
 
     def hazard_kf(self, c, hazard):
@@ -64,7 +67,7 @@ class C06(ProgCheck):
         add([("for", "K", I(1), I(3), None, "auto", [("let", "K", L("N:i0"))])], {"family": "for-null-iterator"})
         # bounded-exhaustive nestings: two loops, one exit statement at each position
         exits = [("break",), ("continue",), ("return", I(7)), ("raise", "E1"), ("nop",)]
-        loops = ["for", "while"]
+        loops = ["for", "while", "forall"]
         for outer, inner in itertools.product(loops, loops):
             for ex in exits:
                 for pos in range(4):
@@ -79,6 +82,12 @@ class C06(ProgCheck):
                         def mk(kind, var, body):
                             if kind == "for":
                                 return [("for", var, I(0), I(2), None, "auto", body)]
+                            if kind == "forall":
+                                # three elements; the counter plays the iterator's role; the element is read and written
+                                return [("let", "T" + var, ("call", "tab", [I(3), I(0)])), ("let", var, I(-1)),
+                                        ("forall", "E" + var, ("var", "T" + var), "auto",
+                                         [("let", var, ("bin", "ADD", ("var", var), I(1))),
+                                          ("let", "E" + var, ("bin", "ADD", ("var", "E" + var), ("bin", "ADD", ("var", var), I(10))))] + body)]
                             return [("let", var, I(-1)), ("while", ("bin", "LT", ("var", var), I(2)), [("let", var, ("bin", "ADD", ("var", var), I(1)))] + body)]
                         inner_s = mk(inner, "B", body_in)
                         body_out = [("print", [S("o"), ("var", "A")])] + inner_s + [("print", [S("x"), ("var", "A")])]
@@ -91,10 +100,55 @@ class C06(ProgCheck):
                         for wrap in ("none", "begin"):
                             p2 = list(prog) + ([("begin", core, [("E1", [("print", [S("caught")])])])] if wrap == "begin" else core)
                             p2 += [("print", [S("end"), ("var", "A"), ("var", "B")]), ("let", "A", S("retyped")), ("let", "B", L("B:1"))]
+                            for lk, lv in ((outer, "A"), (inner, "B")):
+                                if lk == "forall":
+                                    # left by whatever route: the table is writable again, the iterator is a plain variable again
+                                    p2 += [("do", ("member", "concat", ("var", "T" + lv), [I(99)])),
+                                           ("print", [("member", "count", ("var", "T" + lv), [])]), ("let", "E" + lv, S("free"))]
                             add(p2, {"family": "nest"})
+        # forall: every size 0..4 and a null table x direction x source (variable / temporary) x body
+        # (read, write through the iterator, break / continue / raise at each index)
+        for size in (None, 0, 1, 2, 3, 4):
+            for d in ("auto", "asc", "desc"):
+                for source in ("var", "tmp"):
+                    for action in ("read", "write", "break", "continue", "raise", "return", "write-null"):
+                        for at in ((0,) if action in ("read", "write", "write-null") else range(max(1, size or 1))):
+                            n_e = L("N:i0") if size is None else I(size)
+                            mk_tab = ("call", "tab", [n_e, ("fcall", "NX", [])])
+                            body = [("print", [S("v"), ("var", "E")]), ("let", "C", ("bin", "ADD", ("var", "C"), I(1)))]
+                            if action == "write":
+                                body.append(("let", "E", ("bin", "MUL", ("var", "E"), I(2))))
+                            elif action == "write-null":
+                                body.append(("let", "E", L("N:i0")))
+                            elif action != "read":
+                                ex = {"break": ("break",), "continue": ("continue",), "raise": ("raise", "E1"), "return": ("return", ("var", "C"))}[action]
+                                body = body[:1] + [("if", [(("bin", "EQ", ("var", "C"), I(at)), [("let", "C", ("bin", "ADD", ("var", "C"), I(1))), ex])])] + body[1:]
+                            src = ("var", "T") if source == "var" else mk_tab
+                            loop = ("forall", "E", src, d, body)
+                            prog = [("func", "NX", [], "i", [("let", "G", I(5)), ("return", ("var", "G"))], []),
+                                    ("let", "C", I(0)), ("let", "T", mk_tab), ("let", "E", I(-5)),
+                                    ("begin", [loop], [("E1", [("print", [S("caught")])])]) if action == "raise" else loop,
+                                    ("print", [S("after"), ("var", "C"), ("var", "E"), ("member", "count", ("var", "T"), [])]),
+                                    ("forall", "F", ("var", "T"), "auto", [("print", [("var", "F")])]),
+                                    ("do", ("member", "concat", ("var", "T"), [I(7)])), ("let", "E", S("retyped"))]
+                            add(prog, {"family": "forall"})
+        # nested forall: same table twice (read only inside), two tables, inner write
+        for d1, d2 in itertools.product(("auto", "desc"), repeat=2):
+            for same in (True, False):
+                for inner_write in (False, True):
+                    if same and inner_write:
+                        continue
+                    t2 = "T" if same else "U"
+                    inner = [("print", [("var", "E"), ("var", "F")])] + ([("let", "F", ("bin", "ADD", ("var", "F"), ("var", "E")))] if inner_write else [])
+                    prog = [("let", "T", ("call", "tab", [I(3), I(1)])), ("let", "U", ("call", "tab", [I(2), I(5)])),
+                            ("forall", "E", ("var", "T"), d1, [("forall", "F", ("var", t2), d2, inner)] + ([] if same else [("let", "E", ("bin", "ADD", ("var", "E"), I(1)))])),
+                            ("forall", "E", ("var", "T"), "auto", [("print", [("var", "E")])]),
+                            ("forall", "F", ("var", "U"), "auto", [("print", [("var", "F")])]),
+                            ("do", ("member", "concat", ("var", "T"), [I(7)])), ("do", ("member", "delete", ("var", "U"), [I(0)]))]
+                    add(prog, {"family": "forall-nest"})
         # random structured programs with loop emphasis
         for k in range(400 if quick else 6000):
-            g = progen.Gen(self.rng, nvars=2, funcs=(k % 3 == 0), errors=0.06)
+            g = progen.Gen(self.rng, nvars=2, funcs=(k % 3 == 0), errors=0.06, tables=(0.3 if k % 2 else 0.0))
             add(g.program(nstmts=self.rng.randint(3, 7), depth=3), {"family": "random"})
         self.stats["cases"] = n
         return cases
